@@ -35,9 +35,19 @@ package backend
 //@ pred wf_backend(b) = b != nil && len(b.watchEventsRingBuffer) == watchersChanCapacity && b.kv != nil && b.coder != nil && b.tso != nil && b.creator != nil && b.metricCli != nil
 
 // the sequencer slot store is the "report": it clears pending when it carries that revision
+// ev: the event last handed to the sequencer; seq_src: the event the sequencer last took out of a slot;
+// registered: this watch request has subscribed to the hub (C06)
+//@ ghost ev Ref
+//@ ghost seq_src Ref
+//@ ghost registered Bool
+//@ func @sync/atomic.(*Value).Load() (val)
+//@   ghost_only
+//@   modifies ghost.seq_src
+//@   ensures [taken] seq_src == ite(typeis(val, "*common.WatchEvent"), asptr(val, "*common.WatchEvent"), nil)
 //@ func @sync/atomic.(*Value).Store(val)
 //@   ghost_only
-//@   modifies ghost.pending
+//@   modifies ghost.pending ghost.ev
+//@   ensures [event-recorded] ev == ite(typeis(val, "*common.WatchEvent") && asptr(val, "*common.WatchEvent") != nil, asptr(val, "*common.WatchEvent"), old(ev))
 //@   ensures [report] pending == ite(typeis(val, "*common.WatchEvent") && asptr(val, "*common.WatchEvent") != nil && asptr(val, "*common.WatchEvent").Revision == old(pending), uint64(0), old(pending))
 
 //@ func (*backend).GetCurrentRevision() (result)
@@ -66,7 +76,7 @@ package backend
 // deletion marker reads as a deletion (get, scan), so a client value must never be stored as one
 //@   ensures@C03 [a-client-value-is-never-stored-as-the-deletion-marker] commits == old(commits)+1 && err == nil ==> !bytes_eq(value, tombStoneBytes)
 //@   requires wf_backend(b) && pending == 0 && !batch_open
-//@   modifies ghost.pending ghost.max_issued ghost.bw_n ghost.bw_kind ghost.bw_key ghost.bw_val ghost.bw_old ghost.bw_ttl ghost.commits ghost.last_batch ghost.last_err ghost.batch_open ghost.floor ghost.floor_set
+//@   modifies ghost.pending ghost.max_issued ghost.bw_n ghost.bw_kind ghost.bw_key ghost.bw_val ghost.bw_old ghost.bw_ttl ghost.commits ghost.last_batch ghost.last_err ghost.batch_open ghost.floor ghost.floor_set ghost.iteration
 //@   ensures [dealt-is-returned] pending == revision
 //@   ensures [range] revision == 0 || revision < 0x8000000000000000
 //@   ensures [one-batch] commits == old(commits) || (commits == old(commits)+1 && last_err == err && bw_n[last_batch] == 2)
@@ -77,13 +87,17 @@ package backend
 //@   ensures [closed] !batch_open
 //@   ensures [unknown-outcome-is-returned] commits != old(commits) && err_is(last_err, storage.ErrUncertainResult) ==> err == last_err && !err_is(last_err, storage.ErrCASFailed) && last_err != nil
 
+// C06: the event handed to the sequencer is exactly what the caller describes
+//@ pred event_is(e, key, val, revision, preRevision, valid, eventType) = e != nil && asref(e, "*common.WatchEvent").Revision == revision && asref(e, "*common.WatchEvent").PrevRevision == preRevision && asref(e, "*common.WatchEvent").Valid == valid && asref(e, "*common.WatchEvent").ResourceVerb == eventType && asref(e, "*common.WatchEvent").Key == key && asref(e, "*common.WatchEvent").Value == val
 //@ func (*backend).notify(ctx, key, val, revision, preRevision, valid, eventType, err)
 //@   props C04 C06
+//@   ensures@C06 [event-as-described] revision != 0 ==> event_is(ev, key, val, revision, preRevision, valid, eventType) && asref(ev, "*common.WatchEvent").Err == err
+//@   ensures@C06 [no-event-without-a-revision] revision == 0 ==> ev == old(ev)
 //@   requires wf_backend(b)
 //@   requires [range] revision < 0x8000000000000000
 //@   requires [after-batch] !batch_open
 //@   may_panic
-//@   modifies ghost.pending []atomic.Value
+//@   modifies ghost.pending ghost.ev []atomic.Value common.WatchEvent.*
 //@   ensures [reported] revision != 0 && revision == old(pending) ==> pending == 0
 //@   ensures [zero-ignored] revision == 0 ==> pending == old(pending)
 
@@ -135,12 +149,13 @@ package backend
 //@   ensures [limited-list-is-a-prefix-of-the-snapshot] err == nil && r.Limit > 0 ==> forall(i, 0 <= i && i < rec_n && emitted_at(i, R) && 0 <= cnt(i) && cnt(i) < len(resp.Kvs), resp.Kvs[cnt(i)] != nil && same_slice(resp.Kvs[cnt(i)].Key, uk_of(i)) && resp.Kvs[cnt(i)].Value == rec_val[i] && resp.Kvs[cnt(i)].Revision == rec_rev[i])
 
 //@ func (*backend).create(ctx, key, value) (revision, err)
-//@   props C04 C17 C09
+//@   props C04 C06 C17 C09
 //@   requires wf_backend(b) && pending == 0 && !batch_open
 //@   requires [events-dir] events_dir_of(b.config.Prefix)
 //@   ensures [ttl-only-for-event-records] last_ttl != old(last_ttl) && last_ttl != 0 ==> has_prefix(key, events_dir)
 //@   ensures [event-records-get-the-ttl] has_prefix(key, events_dir) && revision != 0 ==> last_ttl == eventsTTL
-//@   modifies ghost.last_ttl ghost.pending ghost.max_issued ghost.bw_n ghost.bw_kind ghost.bw_key ghost.bw_val ghost.bw_old ghost.bw_ttl ghost.commits ghost.last_batch ghost.last_err ghost.batch_open ghost.floor ghost.floor_set
+//@   ensures [success-stores-the-version] err == nil ==> revision != 0 && commits != old(commits) && last_err == nil && is_enc(bw_key[last_batch][1], key, revision) && bw_val[last_batch][1] == value
+//@   modifies ghost.last_ttl ghost.pending ghost.max_issued ghost.bw_n ghost.bw_kind ghost.bw_key ghost.bw_val ghost.bw_old ghost.bw_ttl ghost.commits ghost.last_batch ghost.last_err ghost.batch_open ghost.floor ghost.floor_set ghost.iteration
 //@   ensures [dealt-is-returned] pending == revision
 //@   ensures [range] revision == 0 || revision < 0x8000000000000000
 //@   ensures [closed] !batch_open
@@ -149,7 +164,7 @@ package backend
 //@ func (*backend).delete(ctx, oldRevision, key) (newRevision, old, err)
 //@   props C01 C02 C04 C09
 //@   requires wf_backend(b) && pending == 0 && !batch_open
-//@   modifies ghost.pending ghost.max_issued ghost.bw_n ghost.bw_kind ghost.bw_key ghost.bw_val ghost.bw_old ghost.bw_ttl ghost.commits ghost.last_batch ghost.last_err ghost.batch_open ghost.floor ghost.floor_set
+//@   modifies ghost.pending ghost.max_issued ghost.bw_n ghost.bw_kind ghost.bw_key ghost.bw_val ghost.bw_old ghost.bw_ttl ghost.commits ghost.last_batch ghost.last_err ghost.batch_open ghost.floor ghost.floor_set ghost.iteration
 //@   ensures [dealt-is-returned] pending == newRevision
 //@   ensures [unknown-outcome-is-returned] commits != old(commits) && err_is(last_err, storage.ErrUncertainResult) ==> err == last_err && !err_is(last_err, storage.ErrCASFailed) && last_err != nil
 //@   ensures [at-most-one-batch] commits == old(commits) || (commits == old(commits)+1 && last_err == err && bw_n[last_batch] == 2)
@@ -163,26 +178,34 @@ package backend
 //@   ensures [closed] !batch_open
 
 //@ func (*backend).Create(ctx, put) (resp, err)
-//@   props C04 C09
+//@   props C04 C06 C09
+//@   ensures@C06 [a-successful-create-announces-the-stored-version] err == nil && resp != nil && resp.Succeeded ==> commits != old(commits) && last_err == nil && asref(ev, "*common.WatchEvent").Valid && asref(ev, "*common.WatchEvent").Key == put.Key && asref(ev, "*common.WatchEvent").Value == put.Value && asref(ev, "*common.WatchEvent").Revision == resp.Header.Revision && is_enc(bw_key[last_batch][1], put.Key, resp.Header.Revision) && bw_val[last_batch][1] == put.Value && asref(ev, "*common.WatchEvent").ResourceVerb == proto.Event_CREATE
+//@   ensures@C06 [a-failed-create-announces-nothing] err != nil || (resp != nil && !resp.Succeeded) ==> ev == old(ev) || !asref(ev, "*common.WatchEvent").Valid
 //@   ensures [unknown-outcome-is-reported-as-an-error] commits != old(commits) && err_is(last_err, storage.ErrUncertainResult) ==> resp == nil && err != nil
 //@   requires wf_backend(b) && put != nil && pending == 0 && !batch_open
 //@   requires [events-dir] events_dir_of(b.config.Prefix)
-//@   modifies ghost.last_ttl ghost.pending ghost.max_issued ghost.bw_n ghost.bw_kind ghost.bw_key ghost.bw_val ghost.bw_old ghost.bw_ttl ghost.commits ghost.last_batch ghost.last_err ghost.batch_open ghost.floor ghost.floor_set []atomic.Value
+//@   modifies ghost.last_ttl ghost.pending ghost.max_issued ghost.bw_n ghost.bw_kind ghost.bw_key ghost.bw_val ghost.bw_old ghost.bw_ttl ghost.commits ghost.last_batch ghost.last_err ghost.batch_open ghost.floor ghost.floor_set ghost.ev []atomic.Value common.WatchEvent.* ghost.iteration
 //@   ensures [every-dealt-revision-reported] pending == 0
 
 //@ func (*backend).Update(ctx, r) (resp, err)
-//@   props C04 C09
+//@   props C04 C06 C09
+// C06: one event per write attempt that was dealt a revision; it is valid exactly when the write
+// succeeded, and then it carries the key, value and revision of the version record just committed
+//@   ensures@C06 [a-successful-update-announces-the-stored-version] err == nil && resp != nil && resp.Succeeded ==> commits != old(commits) && last_err == nil && asref(ev, "*common.WatchEvent").Valid && asref(ev, "*common.WatchEvent").Key == r.Kv.Key && asref(ev, "*common.WatchEvent").Value == r.Kv.Value && asref(ev, "*common.WatchEvent").Revision == resp.Header.Revision && is_enc(bw_key[last_batch][1], r.Kv.Key, resp.Header.Revision) && bw_val[last_batch][1] == r.Kv.Value && asref(ev, "*common.WatchEvent").ResourceVerb == ite(r.Kv.Revision == 0, proto.Event_CREATE, proto.Event_PUT)
+//@   ensures@C06 [a-failed-update-announces-nothing] err != nil || (resp != nil && !resp.Succeeded) ==> ev == old(ev) || !asref(ev, "*common.WatchEvent").Valid
 //@   ensures [unknown-outcome-is-reported-as-an-error] commits != old(commits) && err_is(last_err, storage.ErrUncertainResult) ==> resp == nil && err != nil
 //@   requires wf_backend(b) && r != nil && r.Kv != nil && pending == 0 && !batch_open
 //@   requires [events-dir] events_dir_of(b.config.Prefix)
-//@   modifies ghost.last_ttl ghost.pending ghost.max_issued ghost.bw_n ghost.bw_kind ghost.bw_key ghost.bw_val ghost.bw_old ghost.bw_ttl ghost.commits ghost.last_batch ghost.last_err ghost.batch_open ghost.floor ghost.floor_set []atomic.Value
+//@   modifies ghost.last_ttl ghost.pending ghost.max_issued ghost.bw_n ghost.bw_kind ghost.bw_key ghost.bw_val ghost.bw_old ghost.bw_ttl ghost.commits ghost.last_batch ghost.last_err ghost.batch_open ghost.floor ghost.floor_set ghost.ev []atomic.Value common.WatchEvent.* ghost.iteration
 //@   ensures [every-dealt-revision-reported] pending == 0
 
 //@ func (*backend).Delete(ctx, r) (resp, err)
-//@   props C04 C09
+//@   props C04 C06 C09
+//@   ensures@C06 [a-successful-delete-announces-the-stored-deletion] err == nil && resp != nil && resp.Succeeded ==> commits != old(commits) && last_err == nil && asref(ev, "*common.WatchEvent").Valid && asref(ev, "*common.WatchEvent").Key == r.Key && asref(ev, "*common.WatchEvent").Revision == resp.Header.Revision && asref(ev, "*common.WatchEvent").ResourceVerb == proto.Event_DELETE && is_enc(bw_key[last_batch][1], r.Key, resp.Header.Revision) && bw_val[last_batch][1] == tombStoneBytes
+//@   ensures@C06 [a-failed-delete-announces-nothing] err != nil || (resp != nil && !resp.Succeeded) ==> ev == old(ev) || !asref(ev, "*common.WatchEvent").Valid
 //@   ensures [unknown-outcome-is-reported-as-an-error] commits != old(commits) && err_is(last_err, storage.ErrUncertainResult) ==> resp == nil && err != nil
 //@   requires wf_backend(b) && r != nil && pending == 0 && !batch_open
-//@   modifies ghost.pending ghost.max_issued ghost.bw_n ghost.bw_kind ghost.bw_key ghost.bw_val ghost.bw_old ghost.bw_ttl ghost.commits ghost.last_batch ghost.last_err ghost.batch_open ghost.floor ghost.floor_set []atomic.Value
+//@   modifies ghost.pending ghost.max_issued ghost.bw_n ghost.bw_kind ghost.bw_key ghost.bw_val ghost.bw_old ghost.bw_ttl ghost.commits ghost.last_batch ghost.last_err ghost.batch_open ghost.floor ghost.floor_set ghost.ev []atomic.Value common.WatchEvent.* ghost.iteration
 //@   ensures [every-dealt-revision-reported] pending == 0
 
 //@ func responseHeader(rev) (result)
@@ -287,6 +310,9 @@ package backend
 //@ func (*Ring).Add(event)
 //@   props C05
 //@   requires [non-nil] event != nil
+// C06: what enters the cache (and, from the same array, the watch channel) is the announced write:
+// a valid event, with its revision, verb, key and value; a deletion carries the previous revision
+//@   requires@C06 [cached-event-is-the-announced-write] seq_src != nil && asref(seq_src, "*common.WatchEvent").Valid && event.Revision == asref(seq_src, "*common.WatchEvent").Revision && event.Type == asref(seq_src, "*common.WatchEvent").ResourceVerb && event.Kv != nil && event.Kv.Key == asref(seq_src, "*common.WatchEvent").Key && event.Kv.Value == asref(seq_src, "*common.WatchEvent").Value && event.Kv.Revision == ite(asref(seq_src, "*common.WatchEvent").ResourceVerb == proto.Event_DELETE, asref(seq_src, "*common.WatchEvent").PrevRevision, asref(seq_src, "*common.WatchEvent").Revision)
 //@   callers_only (*backend).collectStorageWriteEvents
 //@   locked_assume [single-writer-adds-increasing-revisions] r.e > r.s ==> event.Revision > r.arr[(r.e-1)-rbase(r.e-1, r.l)].Revision
 //@   modifies inferred:(*Ring).Add
@@ -304,6 +330,9 @@ package backend
 // otherwise return exactly the cached events with revision >= the target, in order.
 //@ func (*Ring).FindEvents(revision) (ret)
 //@   props C05
+// C06: a watch reads the cache only after it has subscribed to the hub, so that an event is either
+// already cached (and caught up) or still to be broadcast (and received): nothing falls between
+//@   requires@C06 [watcher-registered-before-the-cache-is-read] registered
 //@   modifies inferred:(*Ring).FindEvents
 //@   let n = len(ret.events)
 //@   let first = locked(r.e)-int64(len(ret.events))
@@ -410,7 +439,22 @@ package backend
 //@   props C19 C05
 //@   nosafety
 //@   requires w != nil && w.metricCli != nil
-//@   modifies inferred:(*WatcherHub).AddWatcher
+//@   modifies inferred:(*WatcherHub).AddWatcher ghost.registered
+// (ghost assignment "registered := err == nil" at the return)
+//@   assume_ensures [ghost-assignment] registered == (old(registered) || err == nil)
+
+//@ func (*backend).Watch(ctx, prefix, revision) (ch, err)
+//@   props C06
+//@   nosafety
+//@   requires wf_backend(b) && b.watcherHub != nil && b.watcherHub.metricCli != nil && b.watchCache != nil
+//@   requires [a-new-request] !registered
+//@   modifies *
+
+//@ func (*backend).collectStorageWriteEvents()
+//@   props C06
+//@   nosafety
+//@   requires wf_backend(b) && b.watchCache != nil && b.asyncFifoRetry != nil
+//@   modifies *
 //@ func (*WatcherHub).DeleteWatcher(sub, lock)
 //@   props C19 C05
 //@   nosafety
